@@ -306,6 +306,12 @@ def str_format(I, fmt, arg):
                     buf = ''
                 parts.append(to_str(I, args[k]).t)
                 k += 1
+            elif c == 'r':
+                if buf:
+                    parts.append(z3.StringVal(buf))
+                    buf = ''
+                parts.append(z3.String(fresh_name('repr')))
+                k += 1
             else:
                 raise Unsupported('format spec %%%s' % c)
             i += 2
@@ -454,6 +460,9 @@ def get_attr(I, obj, name):
             return VFunc('bytes.' + name, selfv=None)
         if isinstance(o, _re.Pattern):
             return VFunc('re.Pattern.' + name, selfv=obj)
+        import logging as _logging
+        if isinstance(o, _logging.Logger):
+            return VFunc(name, selfv=obj)
         if isinstance(o, (str, bytes, int, tuple, frozenset, set, dict, list)) and not isinstance(o, type):
             return VFunc(name, selfv=lit(o) if isinstance(o, (str, bytes, int, tuple)) else obj)
         try:
@@ -587,6 +596,23 @@ def get_item(I, obj, idx):
             raise Raised(VExc(IndexError, [idx]))
     if isinstance(obj, VRec):
         return I.vc.method_contract(I, obj, '__getitem__', [idx], {})
+    if getattr(obj, 'kind', '') == 'tokens':
+        # __tokens[__token]: key must be one of the recorded positions
+        keys = sorted(obj.table)
+        if isinstance(idx, VNone):
+            raise Raised(VExc(KeyError, [idx]))
+        isnone = idx.none if isinstance(idx, VOpt) else z3.BoolVal(False)
+        it = as_int(idx)
+        ok = z3.And(z3.Not(isnone), z3.Or([it == k for k in keys] + [z3.BoolVal(False)]))
+        if I.spec_mode == 0 and not I.decide(ok, 'token-key-present'):
+            raise Raised(VExc(KeyError, [idx]))
+        def entry(k):
+            txt, ln, col = obj.table[k]
+            return VTuple([VStr(txt), VInt(ln), VInt(col)])
+        acc = entry(keys[-1])
+        for k in reversed(keys[:-1]):
+            acc = ite(it == k, entry(k), acc)
+        return acc
     raise Unsupported('subscript of %r' % (obj,))
 
 
@@ -623,6 +649,11 @@ def set_item(I, obj, idx, v):
 
 def del_item(I, obj, idx):
     from .interp import Raised
+    if getattr(obj, 'kind', '') == 'ktext':
+        if isinstance(idx, VSlice) and isinstance(idx.stop, VNone):
+            obj.truncate(I, as_int(idx.start))
+            return
+        raise Unsupported('del on the output stream other than stream[n:]')
     if isinstance(obj, VList):
         if isinstance(idx, VSlice):
             lo = None if isinstance(idx.start, VNone) else concretise(idx.start)
@@ -718,10 +749,14 @@ def concrete_iter(I, it):
         return None
     if isinstance(it, VMap):
         return None
+    if getattr(it, 'kind', '') == 'repeat_iter':
+        return None
     raise Unsupported('iteration over %r' % (it,))
 
 
 def symbolic_len(I, it):
+    if getattr(it, 'kind', '') == 'repeat_iter':
+        return it.n
     if isinstance(it, VSeq):
         return z3.Length(it.t)
     if isinstance(it, (VList, VTuple)):
@@ -742,6 +777,8 @@ def symbolic_len(I, it):
 
 
 def symbolic_item(I, it, i):
+    if getattr(it, 'kind', '') == 'repeat_iter':
+        return VAny(it.item(i))
     if isinstance(it, VSeq):
         return seq_at(it, i)
     if isinstance(it, (VList, VTuple)):
@@ -773,6 +810,9 @@ def havoc_value(I, v, name, spec):
     if isinstance(v, VDict):
         raise Unsupported('dict %r is modified inside a cut loop; give its type' % name)
     if isinstance(v, (VRec,)):
+        from . import k3
+        if v.cls in k3.NATIVE:
+            return v    # render-state records are forgotten by havoc_ghost
         raise Unsupported('record %r modified inside a cut loop' % name)
     if isinstance(v, (VConc, VFunc, VNone)):
         return v
@@ -780,7 +820,21 @@ def havoc_value(I, v, name, spec):
 
 
 def havoc_ghost(I, spec):
-    pass
+    """K3: a cut loop forgets the render state (stream, scope, rcontext, token); the loop
+    invariant has to re-establish whatever the rest of the proof needs"""
+    st = I.ghost.get('k3')
+    if st is None:
+        return
+    stream = st.stream
+    stream.text = z3.String(fresh_name('S_loop'))
+    stream.count = z3.Int(fresh_name('S_loop_n'))
+    I.assume(stream.count >= 0)
+    stream.marks = []
+    for rec, fld in ((st.econtext, 'local'), (st.rcontext, 'm')):
+        f = fresh(Ty('map', [Ty('str'), Ty('any')]), 'loop_' + fld)
+        rec.fields[fld].has, rec.fields[fld].val = f.has, f.val
+    if '__token' in I.env:
+        I.env['__token'] = fresh(Ty('opt', [Ty('int')]), 'loop_token')
 
 
 class QuantGen(V):
@@ -879,6 +933,11 @@ def apply(I, fv, args, kwargs, callnode=None):
     if isinstance(fv, VAny) and not args and not kwargs:
         used('call of an opaque object (uninterpreted result)')
         return VAny(f_call0(fv.t))
+    if isinstance(fv, VAny) and 'handler_calls' in I.ghost:
+        # K3: the only opaque callable the emitted code calls with arguments is the handler
+        I.ghost['handler_calls'].append(args)
+        I.ghost['T'].append(('handler',))
+        return fresh(Ty('any'), 'handler_result')
     raise Unsupported('call of %r' % (fv,))
 
 
@@ -1067,6 +1126,8 @@ def make_token(I, args, kwargs):
 
 def length(I, v):
     from .interp import Raised
+    if getattr(v, 'kind', '') == 'ktext':
+        return v.length(I)
     if isinstance(v, (VStr, VToken, VBytes)):
         used('len(str)')
         return z3.Length(v.t)
@@ -1226,6 +1287,11 @@ def _isinst(I, v, c):
 # ---------------------------------------------------------------------------
 def method(I, recv, name, args, kwargs, callnode=None, unbound=None):
     from .interp import Raised
+    if getattr(recv, 'kind', '') == 'ktext':
+        if name == 'append':
+            recv.append_value(args[0])
+            return NONE
+        raise Unsupported('stream.%s' % name)
     if isinstance(recv, VOpt):
         if I.spec_mode == 0 and I.decide(recv.none, 'none-method'):
             raise Raised(VExc(AttributeError, [VStr(name)]))
@@ -1253,6 +1319,10 @@ def method(I, recv, name, args, kwargs, callnode=None, unbound=None):
         return match_method(I, recv, name, args, kwargs)
     if isinstance(recv, VConc):
         o = recv.obj
+        import logging as _logging
+        if isinstance(o, _logging.Logger):
+            used('logging.Logger.%s (no effect on program state)' % name)
+            return NONE
         if isinstance(o, _re.Pattern):
             return pattern_method(I, o, name, args, kwargs)
         if isinstance(o, (frozenset, set, dict, tuple, list, str)):
@@ -1355,6 +1425,11 @@ def str_method(I, s, name, args, kwargs):
                                   args[2] if len(args) > 2 else None))
     if name in ('lower', 'upper'):
         return VStr(case_model(I, s, name))
+    if name == 'join' and getattr(args[0], 'kind', '') == 'ktext':
+        c = z3.simplify(s)
+        if z3.is_string_value(c) and c.as_string() == '':
+            return VStr(args[0].text)
+        raise Unsupported('join of the stream with a non-empty separator')
     if name == 'join':
         items = concrete_iter(I, args[0])
         if items is None:
